@@ -841,6 +841,9 @@ func runL1History(g *gen, mode string, nops int, hstats map[string]int, faulty, 
 	}
 	var keys []sval
 	nk := 2 + g.r.Intn(4)
+	if bf < 4096 {
+		nk = 6 + g.r.Intn(10) // several nodes per tree: versions share sub-trees
+	}
 	for i := 0; i < nk; i++ {
 		if mode == "rows" {
 			keys = append(keys, []sval{{tag: 'I', i: int64(i)}, {tag: 'T', bs: []byte{byte(97 + i)}}, {tag: 'R', bits: uint64(0x3ff0000000000000) + uint64(i)<<48}}[g.r.Intn(3)])
@@ -878,6 +881,25 @@ func runL1History(g *gen, mode string, nops int, hstats map[string]int, faulty, 
 		}
 		nextH += k
 		hstats["script_fanin"]++
+	}
+	if !faulty && !crashy && mode != "rows" && len(script) == 0 && g.r.Intn(4) == 0 {
+		// a fork: one parent, two children created on either side of a cutoff, a third handle that
+		// merges both and deletes history with that cutoff; every retained version is then walked
+		t := func(i int64) int64 { return baseTime - 3000000000 + i*1000000000 }
+		h0, hA, hB, hM := nextH, nextH+1, nextH+2, nextH+3
+		nextH += 4
+		script = append(script, &kop{kind: "open", h: h0, when: t(0), seed: g.r.Int63n(1000000)})
+		for i, k := range keys {
+			script = append(script, &kop{kind: "set", h: h0, key: k, when: baseTime + int64(i%8)*10, pval: int64(g.r.Intn(50))})
+		}
+		script = append(script, &kop{kind: "commit", h: h0},
+			&kop{kind: "open", h: hA, when: t(1), seed: g.r.Int63n(1000000)},
+			&kop{kind: "open", h: hB, when: t(3), seed: g.r.Int63n(1000000)},
+			&kop{kind: "set", h: hA, key: keys[0], when: baseTime + 70, pval: 41}, &kop{kind: "commit", h: hA},
+			&kop{kind: "set", h: hB, key: keys[len(keys)-1], when: baseTime + 70, pval: 42}, &kop{kind: "commit", h: hB},
+			&kop{kind: "open", h: hM, when: t(5), seed: g.r.Int63n(1000000)},
+			&kop{kind: "delhist", h: hM, before: t(2)}, &kop{kind: "list"})
+		hstats["script_fork"]++
 	}
 	for step := 0; step < nops+len(script); step++ {
 		choice := g.r.Intn(100)
